@@ -25,6 +25,7 @@ def run(ctx, rep):
         check_iterable(crate, rep, cfg)
         check_deleg(crate, rep, cfg)
         check_round(crate, rep, cfg)
+        check_casemap(crate, rep, cfg)
 
 
 def lossless(a, b):
@@ -298,3 +299,23 @@ def check_round(crate, rep, cfg):
             why = "another condition also leads to the unscaled multiplier"
     rep.add("C17.PRE", "C17.PRE:round:unscaled-only-for-precision-0", ok, b.where(ones[0][0]) if ones else b.where(0), "round uses the multiplier 1.0 only when precision == 0 and "
             "10^precision otherwise" + ("" if ok else " — VIOLATED: " + why))
+
+
+def check_casemap(crate, rep, cfg):
+    """C17.DELEG — `title` / `capitalize` "change only letter case": a character's upper / lower case can be several characters (ß -> SS,
+    İ -> i̇); the iterator char::to_uppercase / to_lowercase returns is consumed whole (Display, collect, extend), never stepped by hand."""
+    for path in ("filters::title", "filters::capitalize"):
+        b = crate.one(path)
+        rep.analysed(b)
+        stepped = []
+        maps = 0
+        for bd in crate.with_closures(b):
+            for bb, t in bd.calls():
+                cd = callee_def(t)
+                if cd.endswith("<impl char>::to_uppercase") or cd.endswith("<impl char>::to_lowercase"):
+                    maps += 1
+                if cd.rsplit("::", 1)[-1] in ("next", "nth", "last", "next_back") and any(x in str(t.get("atys")) for x in ("ToUppercase", "ToLowercase")):
+                    stepped.append(bd.where(bb))
+        ok = maps >= 1 and not stepped
+        rep.add("C17.DELEG", "C17.DELEG:%s:case-mapping-consumed-whole" % path, ok, b.where(0), "%s writes every character of each to_uppercase / to_lowercase result" % path.rsplit("::", 1)[-1]
+                + ("" if ok else " — VIOLATED: %s" % (("stepped by hand at %s" % stepped[:2]) if stepped else "no char case mapping found")))
